@@ -136,7 +136,7 @@ theorem C07T_ln (c : Ctx) (hc : c.WF) (x : Dec) (tp r : Tape) (o : Out)
   rcases lnT_shape c x tp r o h with hs | ⟨_, hf | hcm⟩
   · exact (logSpecials_ok c x o hs).2 hc
   · exact (not_deliv_of_failed hf hd).elim
-  · obtain ⟨⟨_, hP⟩, hn⟩ := deliv_computed hcm hd
+  · obtain ⟨⟨_, _, hP⟩, hn⟩ := deliv_computed hcm hd
     exact hP hc hn
 
 theorem C07T_log10 (c : Ctx) (hc : c.WF) (x : Dec) (tp r : Tape) (o : Out)
@@ -144,7 +144,7 @@ theorem C07T_log10 (c : Ctx) (hc : c.WF) (x : Dec) (tp r : Tape) (o : Out)
   rcases log10T_shape c x tp r o h with hs | ⟨_, hf | hcm⟩
   · exact (logSpecials_ok c x o hs).2 hc
   · exact (not_deliv_of_failed hf hd).elim
-  · obtain ⟨hP, hn⟩ := deliv_computed hcm hd
+  · obtain ⟨⟨_, _, hP⟩, hn⟩ := deliv_computed hcm hd
     exact hP hc hn
 
 /-- Pow: stated for a nil error (on an internal trap Pow returns the integer-power intermediate) -/
@@ -183,6 +183,24 @@ theorem C02T_ln_inexact (c : Ctx) (x : Dec) (tp r : Tape) (o : Out)
   · exact (not_deliv_of_failed hf hd).elim
   · obtain ⟨⟨h1, _⟩, _⟩ := deliv_computed hcm hd
     exact h1
+
+theorem C02T_ln_inexact_rounded (c : Ctx) (x : Dec) (tp r : Tape) (o : Out)
+    (h : lnT c x tp = some (o, r)) (hd : DeliveredT c o) (hs : logSpecials c x = none) :
+    o.fl.inexact = true ∧ o.fl.rounded = true := by
+  rcases lnT_shape c x tp r o h with hs' | ⟨_, hf | hcm⟩
+  · rw [hs] at hs'; cases hs'
+  · exact (not_deliv_of_failed hf hd).elim
+  · obtain ⟨⟨h1, h2, _⟩, _⟩ := deliv_computed hcm hd
+    exact ⟨h1, h2⟩
+
+theorem C02T_log10_inexact_rounded (c : Ctx) (x : Dec) (tp r : Tape) (o : Out)
+    (h : log10T c x tp = some (o, r)) (hd : DeliveredT c o) (hs : logSpecials c x = none) :
+    o.fl.inexact = true ∧ o.fl.rounded = true := by
+  rcases log10T_shape c x tp r o h with hs' | ⟨_, hf | hcm⟩
+  · rw [hs] at hs'; cases hs'
+  · exact (not_deliv_of_failed hf hd).elim
+  · obtain ⟨⟨h1, h2, _⟩, _⟩ := deliv_computed hcm hd
+    exact ⟨h1, h2⟩
 
 /-- the hypotheses of the C02T theorems are satisfiable -/
 example : (∃ o, expT exCtx { coeff := 15 } exTapeExp = some (o, []) ∧ DeliveredT exCtx o) ∧
@@ -374,6 +392,8 @@ end Apd.Props
 #print axioms Apd.Props.C07T_pow
 #print axioms Apd.Props.C02T_exp_inexact_rounded
 #print axioms Apd.Props.C02T_ln_inexact
+#print axioms Apd.Props.C02T_ln_inexact_rounded
+#print axioms Apd.Props.C02T_log10_inexact_rounded
 #print axioms Apd.Props.C08T_exp
 #print axioms Apd.Props.C08T_ln
 #print axioms Apd.Props.C08T_log10
